@@ -75,6 +75,17 @@ def r1(idx, rep):
     rep.analysed(fi)
     calls = [unparse(n) for n in walk_no_nested(fi.node) if isinstance(n, ast.Call) and call_name(n) == "limit_collection"]
     rep.check(calls == ["self.current_matcher.limit_collection(line)"], "R1", f"{fi.file}::CsvPaths.next_by_line collects through limit_collection", f"{calls}", K.where(fi, fi.node))
+    # the by-line driver hands every reader line to _consider_line, which alone decides about blank records: its table
+    from . import consider_model as CM
+    fc, crow = CM.rows(idx)
+    rep.analysed(fc)
+    bad = None
+    for adv, p in crow:
+        f = CM.facts(adv, p)
+        if f["skip_blank"] and f["empty"] and not f["blank_last"]:
+            if f["n_matches"] or f["scan_sets"] or f["result"] != ("return", False):
+                bad = bad or "a blank record reaching _consider_line (as it does in breadth-first runs) is matched or counted; standalone and breadth-first runs would differ"
+    rep.check(bad is None, "R1", f"{fc.file}::CsvPath._consider_line skips blank records itself", bad or "", K.where(fc, fc.node))
     # reader: same dialect as the standalone reader (delimiter and quotechar of the owner)
     rd = [n for n in walk_no_nested(fi.node) if isinstance(n, ast.Call) and call_name(n) in ("get_reader", "DataFileReader", "get_named_file_reader")]
     okr = len(rd) == 1 and {k.arg: unparse(k.value) for k in rd[0].keywords} == {"delimiter": "self.delimiter", "quotechar": "self.quotechar"} and call_name(rd[0]) in ("get_reader", "DataFileReader")
